@@ -1,6 +1,7 @@
 package harness
 
 import (
+	"context"
 	"fmt"
 	"sort"
 	"strings"
@@ -19,9 +20,30 @@ var compileMu sync.Mutex
 
 // compileElk type checks and compiles src outside any simulation, with the
 // sequential checker configuration (the reference configuration of C11).
+// Macro expansion runs the macro body on vm.DefaultThreadPool. Inside a simulation that is the
+// pool of the bubble; a compilation outside of one must not touch the queue a finished bubble
+// left behind (a channel of a dead bubble), so it gets a pool of its own for its duration.
+func compilePool() (restore func()) {
+	if simhook.Active() {
+		return func() {}
+	}
+	saved, savedAborter := *vm.DefaultThreadPool, value.GLOBAL_ABORTER
+	// the global aborter of a finished simulation wraps a context of its bubble as well
+	ctx, cancel := context.WithCancel(context.Background())
+	value.GLOBAL_ABORTER = value.NewAborter(ctx, cancel)
+	*vm.DefaultThreadPool = *vm.NewThreadPool(1, 16)
+	return func() {
+		vm.DefaultThreadPool.Close()
+		cancel()
+		*vm.DefaultThreadPool = saved
+		value.GLOBAL_ABORTER = savedAborter
+	}
+}
+
 func compileElk(src string, abortChecks bool) (chunk *vm.BytecodeFunction, diags string, failed bool, panicked string) {
 	compileMu.Lock()
 	defer compileMu.Unlock()
+	defer compilePool()()
 	old := checker.MethodCheckConcurrencyLimit
 	checker.MethodCheckConcurrencyLimit = 1
 	defer func() { checker.MethodCheckConcurrencyLimit = old }()
@@ -51,6 +73,7 @@ func compileElk(src string, abortChecks bool) (chunk *vm.BytecodeFunction, diags
 func compileElkSession(srcs []string) (chunks []*vm.BytecodeFunction, diags string, failed bool, panicked string) {
 	compileMu.Lock()
 	defer compileMu.Unlock()
+	defer compilePool()()
 	old := checker.MethodCheckConcurrencyLimit
 	checker.MethodCheckConcurrencyLimit = 1
 	defer func() { checker.MethodCheckConcurrencyLimit = old }()
